@@ -383,3 +383,9 @@ package mapping
 //@ func readKeys
 //@   property C08
 //@   ensures implies(opaque, len(result) == 1 && result[0] == key)
+
+// C17: a string element of a JSON array is stored as it is (no trimming or other rewriting on the way to the setter), which
+// is what encoding/json does
+//@ func (u *Unmarshaler) fillSliceValue
+//@   property C17
+//@   call setValueFromString#1: assert boxed(arg_str) == value && arg_kind == baseKind
